@@ -101,6 +101,7 @@ type JobResult struct {
 	Aborts        map[string]int
 	AbortMsgs     map[string]string
 	SolverQueries int
+	FallbackHits  int
 	SolverTime    time.Duration
 	Wall          time.Duration
 	Steps         int64
@@ -261,6 +262,7 @@ func (r *Run) concretise(in *Interp, t *Term, what string) uint64 {
 	}
 	var vals []uint64
 	var excl []*Term
+	in.sv.define(t)
 	for {
 		res := in.sv.Check(excl...)
 		if res == "unsat" {
@@ -507,6 +509,7 @@ func RunJob(P *Program, job *Job, workers int, solverBin string, solverArgs []st
 			ex.mu.Lock()
 			ex.res.SolverQueries += sv.Queries
 			ex.res.SolverTime += sv.Time
+			ex.res.FallbackHits += sv.FallbackHits
 			ex.mu.Unlock()
 		}()
 	}
